@@ -216,12 +216,15 @@ func c01Tiny(o *cli.Opts, run *evid.Run) {
 				run.Violate(key+"/H", fmt.Sprintf("F47 insertion gadget accepted=%v but the specification says valid=%v (class %s)", res.Accepted, c.Valid, j.class), c.Describe())
 			}
 			run.Case("f47/"+j.class, true, c.Sig(), res.Accepted, c.Describe())
-			// odometer over the prover's hint outputs (batch 1 only: one decomposition of dm.d digits)
+			// odometer over the prover's hint outputs: every hint output wire the compiled system has for this input
+			// (discovered by an honest solve, so it follows whatever widths the circuit decomposes into), all 47^k
+			// assignments when k <= 2, else the 2 most significant-for-the-attack wires with the rest honest
 			if dm.b == 1 && dm.d <= 2 && j.k < o.Pick(20, 100) {
+				all := discoverHintWires(sys, insGadgetAssign(c))
+				chosen := chooseWires(all, 2)
 				accepted := 0
-				odometer(dm.d, func(vals []int64) bool {
-					h := rmon.Hints{rmon.NBitsID: fixedNBits(append([]int64{}, vals...))}
-					if sys.Solve(insGadgetAssign(c), h).Accepted {
+				odometer(len(chosen), func(vals []int64) bool {
+					if sys.Solve(insGadgetAssign(c), odometerHints(chosen, vals)).Accepted {
 						accepted++
 						if !c.Valid {
 							run.Violate(fmt.Sprintf("%s/odometer/%v", key, vals), fmt.Sprintf("F47 insertion gadget accepts an invalid input with hint outputs %v", vals), c.Describe())
@@ -234,6 +237,10 @@ func c01Tiny(o *cli.Opts, run *evid.Run) {
 					run.Violate(key+"/odometer", "no hint assignment makes the F47 gadget accept a valid input", c.Describe())
 				}
 				run.Add("f47_odometer_inputs_exhausted", 1)
+				if len(all) == len(chosen) {
+					run.Add("f47_odometer_inputs_fully_enumerated", 1)
+				}
+				run.Max("f47_hint_wires_per_input", len(all))
 			}
 		})
 	}
